@@ -322,6 +322,37 @@ theorem finalSymTab_not_diverged (ss : List Stmt) (t : SymTab) : finalSymTab ss 
       · simp
     | _ => simp
 
+theorem evalSyms_not_diverged (ss : List Stmt) (t t0 : SymTab) : evalSyms ss t t0 ≠ .diverged := by
+  induction t0 with
+  | nil => simp [evalSyms]
+  | cons kv rest ih =>
+    obtain ⟨k, v⟩ := kv
+    unfold evalSyms
+    dsimp only
+    split
+    · cases h : evalSyms ss t rest with
+      | diverged => exact absurd h ih
+      | _ => simp
+    · simp
+    · simp
+    · rename_i hc
+      exfalso
+      split at hc
+      · split at hc
+        · simp at hc
+        · rename_i r _
+          split at hc
+          · simp at hc
+          · rename_i o hne
+            cases ho : (if r.isAddrExpr = true then addrOffset ss r else Outcome.ok r) with
+            | diverged =>
+              split at ho
+              · exact absurd ho (addrOffset_not_diverged _ _)
+              · simp at ho
+            | ok x => exact hne x ho
+            | _ => rw [ho] at hc; simp at hc
+      · simp at hc
+
 theorem assemble_not_diverged (fs : Files) (lines : List Str) : assemble fs lines ≠ .diverged := by
   unfold assemble
   rcases parseLines_cases lines with ⟨parsed, h⟩ | h <;> rw [h]
@@ -346,6 +377,10 @@ theorem assemble_not_diverged (fs : Files) (lines : List Str) : assemble fs line
             | diverged => exact absurd h2 (pcrLoop_not_diverged _)
             | ok ss3 =>
               dsimp only
+              cases orgOK ss3 false with
+              | false => simp
+              | true =>
+              simp only [Bool.not_true, Bool.false_eq_true, if_false]
               cases h3 : assignAddrs ss3 0 with
               | diverged => exact absurd h3 (assignAddrs_not_diverged _ _)
               | ok ss4 =>
@@ -354,8 +389,13 @@ theorem assemble_not_diverged (fs : Files) (lines : List Str) : assemble fs line
                 | diverged => exact absurd h4 (fixAll_not_diverged _ _ _)
                 | ok ss5 =>
                   dsimp only
-                  cases h5 : finalSymTab ss5 t with
-                  | diverged => exact absurd h5 (finalSymTab_not_diverged _ _)
+                  cases h6 : evalSyms ss5 t t with
+                  | diverged => exact absurd h6 (evalSyms_not_diverged _ _ _)
+                  | ok t1 =>
+                    dsimp only
+                    cases h5 : finalSymTab ss5 t1 with
+                    | diverged => exact absurd h5 (finalSymTab_not_diverged _ _)
+                    | _ => simp
                   | _ => simp
                 | _ => simp
               | _ => simp
